@@ -6,8 +6,8 @@ package checks
 // Shared by C05 (closure semantics) and C06 (fault injection).
 
 import (
-	"encoding/json"
 	"context"
+	"encoding/json"
 	"fmt"
 	"path"
 	"sort"
@@ -498,12 +498,12 @@ type gateResult struct {
 	Order     []string // contributions read out of the model (see contributions)
 	Apps      []string
 	Panic     string
-	Hung     bool
-	Reads    map[string]int
-	Total    int
-	Unknown  []string
-	Releases []int // file index of each released read, in order
-	Branch   []int // number of pending reads at each release (for schedule enumeration)
+	Hung      bool
+	Reads     map[string]int
+	Total     int
+	Unknown   []string
+	Releases  []int // file index of each released read, in order
+	Branch    []int // number of pending reads at each release (for schedule enumeration)
 	// implementation-shaped model outcome under the realised release order
 	ModelClaimed map[int]int // file -> claim depth
 	ModelExact   bool        // the model's prediction of pending reads was met at every step
@@ -710,7 +710,6 @@ func fnames(ix []int) []string {
 	}
 	return out
 }
-
 
 // ---------- running a gated compile in the sandbox worker ----------
 //
